@@ -49,8 +49,9 @@ QPairs == {<<a, b>> : a \in Quats, b \in Quats}
 \* then (Force) the marker and component that carry the unit force
 Init ==
   \/ "rigid3" \in Kinds /\ \E q \in Quats, w \in 1..3 : cs = Rec("rigid3", q, q, w, 0, 0, FALSE)
-  \/ "rigid2" \in Kinds /\ \E cs2 \in {<<1, 0>>, <<3, 4>>, <<-5, 12>>, <<0, -1>>, <<-4, -3>>}, w \in 1..3 :
-                               cs = Rec("rigid2", cs2, cs2, w, 0, 0, FALSE)
+  \* 2-D cylinder: rotation about z by a rational angle; flip = TRUE: the director d3 points along -z (an admissible pose)
+  \/ "rigid2" \in Kinds /\ \E cs2 \in {<<1, 0>>, <<3, 4>>, <<-5, 12>>, <<0, -1>>, <<-4, -3>>}, w \in 1..3, flip \in BOOLEAN :
+                               cs = Rec("rigid2", cs2, cs2, w, 0, 0, flip)
   \/ "rod_elem" \in Kinds /\ \E qq \in QPairs : cs = Rec("rod_elem", qq[1], qq[2], 2, 0, 0, FALSE)
   \/ "rod_nodal" \in Kinds /\ cs = Rec("rod_nodal", <<1, 0, 0, 0>>, <<1, 0, 0, 0>>, 2, 0, 0, FALSE)
   \/ "rod_edge" \in Kinds /\ \E w \in 1..3 : cs = Rec("rod_edge", <<1, 0, 0, 0>>, <<1, 0, 0, 0>>, w, 0, 0, FALSE)
@@ -66,7 +67,8 @@ Spec == Init /\ [][Next]_cs
 \* ---------------------------------------------------------------- rigid bodies
 Qd     == IF cs.kind = "rigid2"
           THEN LET h == IF cs.q \in {<<3, 4>>, <<-4, -3>>} THEN 5 ELSE IF cs.q = <<-5, 12>> THEN 13 ELSE 1
-               IN  << V3(Q(cs.q[1], h), Q(cs.q[2], h), Q(0, 1)), V3(Q(-cs.q[2], h), Q(cs.q[1], h), Q(0, 1)), VI(0, 0, 1) >>
+               IN  IF cs.opt THEN << V3(Q(cs.q[1], h), Q(cs.q[2], h), Q(0, 1)), V3(Q(cs.q[2], h), Q(-cs.q[1], h), Q(0, 1)), VI(0, 0, -1) >>
+                   ELSE << V3(Q(cs.q[1], h), Q(cs.q[2], h), Q(0, 1)), V3(Q(-cs.q[2], h), Q(cs.q[1], h), Q(0, 1)), VI(0, 0, 1) >>
           ELSE Rot(cs.q)
 Wm     == Wset[cs.w]
 RArm(m)  == IF cs.kind = "rigid2" THEN V3(Arms[m][1], Arms[m][2], Q(0, 1)) ELSE Arms[m]
